@@ -17,7 +17,7 @@ runner = impl_thr.run_scenario
 
 def scenarios(rng, n, tier):
     for _ in range(n):
-        opts = {"calls": [1, 2, 3], "p_single": 1.0, "p_skip": 0.0, "p_nodelay": 0.0, "p_stop": 0.1,
+        opts = {"calls": [1, 2, 3], "p_single": 1.0, "p_skip": 0.25, "p_nodelay": 0.0, "p_stop": 0.1,
                 "p_limit": 0.15, "max_jobs": 2, "p_force": 0.15, "p_start": 0.6}
         yield scen.gen_life(rng, opts)
 
@@ -40,8 +40,10 @@ def single_jobs(scn):
 
 def specs(r, calls=(1, 2, 3)):
     """Spec oracle on implementation observations: first due = least occurrence strictly after the
-    reference; every execution moves the due instant by exactly one period (no skip)."""
-    qs = []
+    reference; every execution moves the due instant by exactly one period (no skip); with
+    skip_missing the new due instant is still an occurrence (the C08 Spec)."""
+    from . import c08
+    qs = [q for q in c08.specs(r) if q[1]["what"] == "skip_due"]
     scn = r["scn"]
     jobs = {}
     key = 0
@@ -53,8 +55,9 @@ def specs(r, calls=(1, 2, 3)):
         if o["op"] == "sch":
             if ob["res"][0] == "j":
                 k = ob["res"][1]
-                if o["call"] in calls and len(o["timings"]) == 1 and not o.get("skip") and o.get("delay", True):
-                    jobs[k] = o
+                if o["call"] in calls and len(o["timings"]) == 1 and o.get("delay", True):
+                    if not o.get("skip"):
+                        jobs[k] = o
                     ref = (o["start"][0] - (o["start"][1] or 0)) if o.get("start") else o["clock"]
                     due = ob["jobs"][k][0]
                     qs.append((f"spec least {tm_tokens(o['call'], o['timings'][0])} {ref} {due}", {"what": "first_due", "key": k}))
